@@ -48,6 +48,16 @@ def main():
     ap.add_argument("--replay")
     a = ap.parse_args()
     try:
+        if a.replay:
+            # A replay re-executes, deterministically, the run that produced the violation (same tier, same seed: all generators
+            # are seeded) against the current tree and reports whether a violation with the same facts occurs again.
+            import json
+            with open(a.replay) as f:
+                doc = json.load(f)
+            os.environ["VERIF_SEED"] = str(doc.get("seed", 0))
+            os.environ.setdefault("VERIF_EVIDENCE_DIR", os.path.join(common.VERIF, "replays", "_evidence"))
+            a.tier = doc.get("tier", a.tier)
+            print("replaying %s: tier=%s seed=%s facts=%s" % (a.replay, a.tier, doc.get("seed", 0), json.dumps(doc.get("facts"))[:300]))
         if a.prop == "selftest":
             from . import selftest
             rc = selftest.run()
